@@ -18,25 +18,37 @@ import itertools
 
 import numpy as np
 
-from ..contracts import attach, detach_all
+from ..contracts import attach, detach_all, quiet
 from ..core import parity
 from ..refmodels import sensor as ref
+from ..util import precision
 
 RULE = ('expose: every bit depth 1..32 x exposure classes (sorted ramp crossing full well / ADC ceiling with fwc above and '
         'below the ADC range, uniform saturated, random image with dark current + dcnu map, prnu flat / 2-D, negative bias, '
-        'LUT, integer image, 1xN / Nx1, frames 1..4, noisy exposures at three light levels) with random gain, bias, fwc, '
-        'exposure time; binning/tiling: N-D arrays (1..5-D) with per-axis and scalar factors dividing the shape, integer-valued '
-        'fill; Bayer: even shapes 2..32 (square and not), both layouts, random positive fill, random gains and saturation '
-        'levels; non-trivial = array has >= 2 samples; distinct = distinct descriptor')
+        'LUT, integer image in int64 / uint8 / uint16 / int32 / uint32 containers, 1xN / Nx1, frames 1..4, noisy exposures at '
+        'three light levels) with random gain, bias, fwc, exposure time, each (bit depth, class) in the four configurations '
+        'float64 / float32 image x config.precision 64 / 32 and in C / Fortran / strided memory layouts, every second one '
+        'exposed twice with the same objects; attribute-change histories on ONE Detector instance (bits up / down / 1 / 25 / 32, '
+        'gain, fwc, bias, exposure time, prnu / dcnu set and cleared, precision 64 -> 32 -> 64); binning/tiling: N-D arrays '
+        '(1..5-D) with per-axis and scalar factors dividing the shape, integer-valued fill in float64 / float32 / int8..int64 / '
+        'uint8..uint32 / bool containers using the whole container range (block sums leave the container), four memory '
+        'layouts; frames returned by expose (8..32-bit, single and stacks) fed to bindown / tile; Bayer: even shapes 2..32 '
+        '(thorough ..128, square and not), both layouts, float64 / float32 / uint8 / uint16 / int32 mosaics, four memory layouts, '
+        'random gains and saturation levels; non-trivial = array has >= 2 samples; distinct = distinct descriptor')
 ASSUMPTIONS = ['noise-free reference: floor(clip(min(s*t*prnu + dark*t*dcnu*prnu + bias, fwc)/gain, 0, 2^bits-1)); cases with a prnu '
                'map use zero dark current so that it does not matter whether prnu also scales the dark signal',
-               'DN within 1e-12 relative of an integer boundary may round either way (x*(1/gain) vs x/gain)',
+               'DN within 1e-12 relative of an integer boundary may round either way (x*(1/gain) vs x/gain); when the aerial image '
+               'is float32 or config.precision is 32 the real-valued DN may be off by 1e-4 relative (measured float32 round-off '
+               '1.2e-7) — the range [0, 2^bits-1], dtype, shape and monotonicity are demanded exactly in every configuration',
+               'block sums / totals of integer and boolean containers are the mathematical sums (taken in double by the reference), '
+               'not sums modulo the container',
                'the backend shim swap only replaces random.poisson (returns its mean) and random.normal (returns loc)',
                'aerial images are 2-D and non-negative; dcnu/prnu maps have the image shape (prnu also flat 1-D as the code accepts)',
                'white balance: only "each colour is scaled by one constant, safe mode applies one common limiter" is demanded']
 REQUIRED = ['expose.contract', 'expose.noise-free-model', 'expose.monotonic', 'bindown.block-sum', 'bindown.contract',
             'tile.reference', 'tile.contract', 'adjoint.pairs', 'bayer.decomposite', 'bayer.recomposite', 'bayer.composite',
-            'bayer.roundtrip', 'bayer.malvar', 'bayer.deinterlace', 'wb.prescale', 'wb.postscale']
+            'bayer.roundtrip', 'bayer.malvar', 'bayer.deinterlace', 'wb.prescale', 'wb.postscale',
+            'expose.history', 'expose.repeat', 'expose.saturated-real-rng', 'expose->bindown', 'bindown.integer-containers']
 
 CTX = None
 ADC_KEY = 'C16/expose/adc-ceiling-2^bits'
@@ -90,6 +102,67 @@ def seeded_numpy(seed):
 
 
 # ------------------------------------------------------------------------------------------ contracts
+def _is32():
+    from prysm.conf import config
+    return config.precision is np.float32
+
+
+def cfg_key(base, img=None):
+    """`base` when the call is in the default configuration or when `base` was already observed in this process in the
+    default configuration (the failure is then not specific to single precision); otherwise `base` + a label of the
+    non-default ingredients (config.precision = 32, a float32 aerial image)."""
+    parts = []
+    if _is32():
+        parts.append('precision32')
+    if getattr(img, 'dtype', None) == np.dtype('float32'):
+        parts.append('float32-image')
+    if not parts or base in CTX.violations:
+        return base
+    return base + '/' + '+'.join(parts)
+
+
+_DEFER = [False]
+_PENDING = []
+
+
+def resolve(base, img, reproduces_in_default):
+    """Key of a failure seen in a non-default configuration: `base` when the same case also fails in the default
+    configuration (float64 data, precision 64; `reproduces_in_default()` re-runs it, only ever called on a failure),
+    else `base` + the configuration label."""
+    k = cfg_key(base, img)
+    if k == base:
+        return base
+    try:
+        with quiet():
+            if reproduces_in_default():
+                return base
+    except Exception:  # noqa
+        pass
+    return k
+
+
+@contextlib.contextmanager
+def deferred(ctx, img, reproduces_in_default):
+    """Contract violations raised inside are keyed after the call, once it is known whether they are configuration specific."""
+    _DEFER[0] = True
+    del _PENDING[:]
+    try:
+        yield
+    finally:
+        _DEFER[0] = False
+        pend = list(_PENDING)
+        del _PENDING[:]
+        for base, what, desc, detail in pend:
+            ctx.violation(resolve(base, img, reproduces_in_default), what, desc, **detail)
+
+
+def _emit(base, what, desc, img, **detail):
+    if _DEFER[0]:
+        _PENDING.append((base, what, desc, detail))
+    else:
+        CTX.violation(cfg_key(base, img), what, desc, **detail)
+
+
 def _wrapped(bits):
     cbits = 8 if bits <= 8 else 16 if bits <= 16 else 32
     return (2 ** bits) % (2 ** cbits)
@@ -113,11 +186,13 @@ def post_expose(token, args, kwargs, result):
         return
     mx = int(result.max()) if result.size else 0
     mn = int(result.min()) if result.size else 0
+    desc['precision'] = 32 if _is32() else 64
+    desc['img_dtype'] = str(getattr(img, 'dtype', type(img).__name__))
     if mx > 2 ** bits - 1 or mn < 0:
         if mx == 2 ** bits and mn >= 0:
-            CTX.violation(ADC_KEY, ADC_WHAT, desc, max_dn=mx)
+            _emit(ADC_KEY, ADC_WHAT, desc, img, max_dn=mx)
         else:
-            CTX.violation('C16/expose/range', f'DN outside [0, 2^bits-1]: min {mn}, max {mx}', desc)
+            _emit('C16/expose/range', f'DN outside [0, 2^bits-1]: min {mn}, max {mx}', desc, img)
 
 
 def _factor(array, factor):
@@ -141,17 +216,31 @@ def post_bindown(token, args, kwargs, result):
     if tuple(result.shape) != want:
         CTX.violation(f'C16/bindown/{mode_class(mode)}/shape', f'bindown returned shape {result.shape}, expected {want}', desc)
         return
-    scale = (float(np.abs(arr).sum()) or 1.0) * _rt(arr)
+    if arr.size == 0 or arr.dtype.kind not in 'biuf':
+        return
+    desc['dtype'] = str(arr.dtype)
+    af = arr.astype(float) if arr.dtype.kind in 'biu' else arr       # totals of narrow containers are taken in double
+    scale = (float(np.abs(af).sum()) or 1.0) * _rt(arr)
+    rs = np.asarray(result)
+    rf = rs.astype(float) if rs.dtype.kind in 'biu' else rs
     if mode == 'sum':
-        ok = abs(float(result.sum()) - float(arr.sum())) <= scale
+        ok = abs(float(rf.sum()) - float(af.sum())) <= scale
         if not ok:
-            CTX.violation('C16/bindown/sum/total-not-conserved', 'sum-mode binning does not conserve the total', desc,
-                          got=float(result.sum()), want=float(arr.sum()))
+            def dbl():
+                from prysm import detector
+                r2 = detector.bindown(af, a['factor'], 'sum')
+                return abs(float(r2.sum()) - float(af.sum())) > scale
+            CTX.violation(container_key('C16/bindown/sum/total-not-conserved', arr, dbl), 'sum-mode binning does not conserve the total', desc,
+                          got=float(rf.sum()), want=float(af.sum()))
     else:
-        ok = abs(float(result.mean()) - float(arr.mean())) <= scale / arr.size
+        ok = abs(float(rf.mean()) - float(af.mean())) <= scale / arr.size
         if not ok:
-            CTX.violation('C16/bindown/avg/level-not-conserved', 'avg-mode binning does not conserve the mean level', desc,
-                          got=float(result.mean()), want=float(arr.mean()))
+            def dbl():
+                from prysm import detector
+                r2 = detector.bindown(af, a['factor'], 'avg')
+                return abs(float(r2.mean()) - float(af.mean())) > scale / arr.size
+            CTX.violation(container_key('C16/bindown/avg/level-not-conserved', arr, dbl), 'avg-mode binning does not conserve the mean level', desc,
+                          got=float(rf.mean()), want=float(af.mean()))
 
 
 def _rt(arr):
@@ -162,6 +251,25 @@ def _rt(arr):
 
 def mode_class(mode):
     return 'sum' if mode == 'sum' else 'avg'
+
+
+def _container(arr):
+    """'' for floating-point data, else a label of the container class (the float workloads decide the plain key)."""
+    k = getattr(arr, 'dtype', np.dtype(float)).kind
+    return '/boolean-input' if k == 'b' else '/integer-input' if k in 'iu' else ''
+
+
+def container_key(base, arr, fails_in_double=None):
+    """`base` for floating-point data or when the same call on the array cast to double fails too, else base + container label."""
+    sfx = _container(arr)
+    if not sfx or base in CTX.violations:
+        return base
+    try:
+        if fails_in_double is not None and fails_in_double():
+            return base
+    except Exception:  # noqa
+        pass
+    return base + sfx
 
 
 def post_tile(token, args, kwargs, result):
@@ -178,13 +286,25 @@ def post_tile(token, args, kwargs, result):
     if tuple(result.shape) != want:
         CTX.violation(f'C16/tile/{mode_class(scaling)}/shape', f'tile returned shape {result.shape}, expected {want}', desc)
         return
-    scale = (float(np.abs(arr).sum()) or 1.0) * _rt(arr)
+    if arr.size == 0 or arr.dtype.kind not in 'biuf':
+        return
+    desc['dtype'] = str(arr.dtype)
+    af = arr.astype(float) if arr.dtype.kind in 'biu' else arr
+    rs = np.asarray(result)
+    rf = rs.astype(float) if rs.dtype.kind in 'biu' else rs
+    scale = (float(np.abs(af).sum()) or 1.0) * _rt(arr)
     if scaling == 'sum':
-        if abs(float(result.sum()) - float(arr.sum())) > scale:
-            CTX.violation('C16/tile/sum/total-not-conserved', 'sum-scaled tiling does not conserve the total', desc)
+        if abs(float(rf.sum()) - float(af.sum())) > scale:
+            def dbl():
+                from prysm import detector
+                return abs(float(detector.tile(af, a['factor'], 'sum').sum()) - float(af.sum())) > scale
+            CTX.violation(container_key('C16/tile/sum/total-not-conserved', arr, dbl), 'sum-scaled tiling does not conserve the total', desc)
     else:
-        if abs(float(result.mean()) - float(arr.mean())) > scale / arr.size:
-            CTX.violation('C16/tile/avg/level-not-conserved', 'avg-scaled tiling does not conserve the level', desc)
+        if abs(float(rf.mean()) - float(af.mean())) > scale / arr.size:
+            def dbl():
+                from prysm import detector
+                return abs(float(detector.tile(af, a['factor'], scaling).mean()) - float(af.mean())) > scale / arr.size
+            CTX.violation(container_key('C16/tile/avg/level-not-conserved', arr, dbl), 'avg-scaled tiling does not conserve the level', desc)
 
 
 def _even2d(img):
@@ -365,6 +485,12 @@ def post_wb_postscale(before, args, kwargs, result):
                       gains_applied=ks)
 
 
+def install_monitors(ctx):
+    global CTX
+    CTX = ctx
+    install()
+
+
 def install():
     from prysm import detector, bayer
     attach(detector.Detector, 'expose', post=post_expose)
@@ -382,11 +508,81 @@ def install():
 # ------------------------------------------------------------------------------------------ expose workload
 EXPOSE_CLASSES = ['ramp/fwc-above-adc', 'ramp/fwc-below-adc', 'ramp/frames', 'uniform-saturated', 'random/dark+dcnu', 'random/prnu-flat',
                   'random/prnu-2d', 'negative-bias', 'lut', 'int-image', 'line-1xN', 'line-Nx1', 'noisy/dark', 'noisy/mid', 'noisy/saturating']
+# (dtype of the aerial image and of the non-uniformity maps, config.precision); index 0 is the default configuration
+EXPOSE_CFGS = [('float64', 64), ('float64', 32), ('float32', 32), ('float32', 64)]
+INT_IMG_DTYPES = ['int64', 'uint8', 'uint16', 'int32', 'uint32']
+LAYOUTS = ['C', 'F', 'S', 'T']
+LOW_DELTA = 1e-4       # single-precision allowance on the real-valued DN (measured round-off of img*t + dark in float32: 1.2e-7)
+
+
+def as_layout(a, layout):
+    """The same N-D array in another memory layout: Fortran order, a strided slice of a larger block, a transposed view."""
+    if a.ndim < 2 or layout == 'C':
+        if layout == 'S' and a.ndim == 1 and a.size:
+            big = np.zeros(2 * a.size + 1, dtype=a.dtype)
+            v = big[1::2]
+            v[...] = a
+            return v
+        return a
+    if layout == 'F':
+        return np.asfortranarray(a)
+    if layout == 'T':
+        return np.ascontiguousarray(a.T).T
+    big = np.zeros(tuple(2 * n + 1 for n in a.shape), dtype=a.dtype)
+    v = big[tuple(slice(1, None, 2) for _ in a.shape)]
+    v[...] = a
+    return v
+
+
+def judge_model(ctx, desc, out, img, frames, lo, hi, v, x, bits, fwc, lut, keyf, monotonic):
+    """Noise-free exposure against the reference bounds lo <= DN <= hi, and monotonicity along a sorted ramp."""
+    cap = 2 ** bits - 1
+    o = np.asarray(out)
+    o = o.reshape((frames,) + tuple(img.shape)) if o.size == frames * img.size else None
+    if o is None:
+        return  # the contract reported the shape
+    ctx.observe('expose.noise-free-model')
+    wrapped = _wrapped(bits)
+    if lut is not None:
+        good = (o == lut[lo][None]) | (o == lut[hi][None])
+    else:
+        oi = o.astype(np.int64)
+        good = (oi >= lo[None]) & (oi <= hi[None])
+    if not good.all():
+        bad = ~good
+        vb = np.broadcast_to(v[None], o.shape)[bad]
+        gb = o[bad].astype(np.int64)
+        wrapped_dn = wrapped if lut is None else (int(lut[wrapped]) if wrapped < len(lut) else -1)
+        if (vb >= cap + 1 - 1e-9 * (cap + 1)).all() and ((gb == wrapped_dn).all() or (bits == 32 and lut is None)):
+            ctx.violation(keyf(ADC_KEY), ADC_WHAT, desc, got=gb[:3], want=cap)
+        else:
+            i = int(np.argmin(vb))
+            xb = np.broadcast_to(x[None], o.shape)[bad][i]
+            region = 'below-zero' if vb[i] < 0 else 'full-well-saturated' if xb > fwc else 'adc-saturated' if vb[i] >= cap else 'linear'
+            ctx.violation(keyf(f'C16/expose/noise-free-model/{region}'), 'noise-free DN differs from floor(clip(min(s*t+dark+bias, fwc)/gain, 0, 2^bits-1)) '
+                          f'for a {region} pixel', desc, got=gb[i], want=[int(np.broadcast_to(lo[None], o.shape)[bad][i]),
+                                                                          int(np.broadcast_to(hi[None], o.shape)[bad][i])], real_dn=float(vb[i]))
+    if monotonic:
+        ctx.observe('expose.monotonic')
+        flat = o.reshape(frames, -1).astype(np.int64)
+        vv = v.ravel()
+        if lut is None and (np.diff(vv) >= 0).all():
+            drop = np.diff(flat, axis=1) < 0
+            if drop.any():
+                f_, i_ = np.nonzero(drop)
+                tgt = flat[f_, i_ + 1]
+                if (vv[i_ + 1] >= cap + 1 - 1e-9 * (cap + 1)).all() and ((tgt == wrapped).all() or bits == 32):
+                    ctx.violation(keyf(ADC_KEY), ADC_WHAT, desc, brighter_pixel_reads=int(tgt[0]), darker_pixel_reads=int(flat[f_[0], i_[0]]))
+                else:
+                    ctx.violation(keyf('C16/expose/non-monotonic'), 'a brighter pixel reads darker in a noise-free exposure', desc,
+                                  signal=[float(np.ravel(img)[i_[0]]), float(np.ravel(img)[i_[0] + 1])], dn=[int(flat[f_[0], i_[0]]), int(tgt[0])])
 
 
 def expose_case(ctx, bits, cls, rep):
     from prysm import detector
     rng = np.random.default_rng([ctx.seed, 16, bits, EXPOSE_CLASSES.index(cls), rep])
+    imgdt, prec = EXPOSE_CFGS[rep % 4]
+    layout = LAYOUTS[(rep + bits + EXPOSE_CLASSES.index(cls)) % 3] if rep else 'C'
     cap = 2 ** bits - 1
     gain = float(10 ** rng.uniform(-1, np.log10(50)))
     t = float(10 ** rng.uniform(-2, 1))
@@ -423,7 +619,11 @@ def expose_case(ctx, bits, cls, rep):
     elif cls == 'uniform-saturated':
         img = np.full(shape, 100 * s_sat)
     elif cls == 'int-image':
-        img = rng.integers(0, max(2, int(2 * s_sat) + 2), shape)
+        idt = INT_IMG_DTYPES[rep % len(INT_IMG_DTYPES)]
+        top = min(max(2, int(2 * s_sat) + 2), int(np.iinfo(idt).max))
+        img = rng.integers(0, top, shape).astype(idt)
+        if idt != 'int64':
+            img.flat[0] = min(int(np.iinfo(idt).max), max(1, int(3 * s_sat)))      # a bright pixel in a narrow container
     else:
         img = rng.uniform(0, 2.0, shape) * s_sat
         img.flat[0] = 0.0
@@ -447,20 +647,64 @@ def expose_case(ctx, bits, cls, rep):
         img = rng.uniform(0.5, 1.5, shape) * level * s_sat
         if rng.random() < 0.5:
             dcnu = rng.uniform(0.5, 1.5, shape)
+    # configuration: single-precision image / maps, memory layout (the values the library sees are the reference's input)
+    if img.dtype.kind == 'f' and imgdt == 'float32':
+        img = img.astype(np.float32)
+        dcnu = None if dcnu is None else dcnu.astype(np.float32)
+        prnu = None if prnu is None else prnu.astype(np.float32)
+    img = as_layout(img, layout)
+    if dcnu is not None and layout == 'F':
+        dcnu = np.asfortranarray(dcnu)
+    low = prec == 32 or img.dtype == np.float32
+    cfgname = f'{img.dtype}/p{prec}'
     desc = {'wl': 'expose', 'bits': bits, 'cls': cls, 'rep': rep, 'shape': list(shape), 'frames': frames, 'gain': gain, 'bias': bias,
-            'fwc': fwc, 't': t, 'dark': dark, 'class': f'expose:{cls}:bits={bits}'}
+            'fwc': fwc, 't': t, 'dark': dark, 'img_dtype': str(img.dtype), 'precision': prec, 'layout': layout,
+            'class': f'expose:{cls}:bits={bits}:{cfgname}'}
     ctx.case(desc, nontrivial=n >= 2)
     det = detector.Detector(dark_current=dark, read_noise=read_noise, bias=bias, fwc=fwc, conversion_gain=gain, bits=bits,
                             exposure_time=t, prnu=prnu, dcnu=dcnu, lut=lut)
     gkey = 'C16/expose/prnu-2d' if cls == 'random/prnu-2d' else 'C16/expose'
+    keep = np.array(img, copy=True)
+    mono = cls.startswith('ramp') or cls in ('line-1xN', 'line-Nx1', 'negative-bias')
+    nseed = int(rng.integers(2 ** 31 - 1))
+
+    def default_fails():
+        """The same case as float64 C-ordered data under precision 64: does it break the statement there too?"""
+        f64 = lambda a: None if a is None else np.ascontiguousarray(np.asarray(a, dtype=float))     # noqa: E731
+        img64 = f64(img) if img.dtype.kind == 'f' else np.ascontiguousarray(img)
+        d2 = detector.Detector(dark_current=dark, read_noise=read_noise, bias=bias, fwc=fwc, conversion_gain=gain, bits=bits,
+                               exposure_time=t, prnu=f64(prnu), dcnu=f64(dcnu), lut=lut)
+        if noisy:
+            with precision(64), seeded_numpy(nseed):
+                o = np.asarray(d2.expose(img64, frames=frames)).astype(np.int64)
+            return bool(o.max() > cap or o.min() < 0)
+        lo2, hi2, v2, _ = ref.expose_ref(np.asarray(img64, dtype=float), t, dark, bias, fwc, gain, bits, prnu=prnu, dcnu=dcnu)
+        with precision(64), noise_free():
+            o = np.asarray(d2.expose(img64, frames=frames)).reshape((frames,) + tuple(img.shape))
+        if lut is not None:
+            return not bool(((o == lut[lo2][None]) | (o == lut[hi2][None])).all())
+        o = o.astype(np.int64)
+        bad = not bool(((o >= lo2[None]) & (o <= hi2[None])).all()) or o.max() > cap
+        if mono and (np.diff(v2.ravel()) >= 0).all():
+            bad = bad or bool((np.diff(o.reshape(frames, -1), axis=1) < 0).any())
+        return bad
+
     if noisy:
-        with seeded_numpy(int(rng.integers(2 ** 31 - 1))), ctx.guard(gkey, desc):
+        with precision(prec), deferred(ctx, img, default_fails), seeded_numpy(nseed), ctx.guard(gkey, desc):
             det.expose(img, frames=frames)                # the contract decides
         return
-    lo, hi, v, x = ref.expose_ref(img, t, dark, bias, fwc, gain, bits, prnu=prnu, dcnu=dcnu)
+    lo, hi, v, x = ref.expose_ref(np.asarray(img, dtype=float), t, dark, bias, fwc, gain, bits, prnu=prnu, dcnu=dcnu,
+                                  delta=LOW_DELTA if low else 1e-12)
     out = None
-    with noise_free(), ctx.guard(gkey, desc):
+    with precision(prec), deferred(ctx, img, default_fails), noise_free(), ctx.guard(gkey, desc):
         out = det.expose(img, frames=frames)
+        if rep % 2:
+            # class A: the same detector and the same image object once more; the later call is judged
+            out2 = det.expose(img, frames=frames)
+            ctx.require('expose.repeat', np.array_equal(out, out2), 'C16/expose/repeat-call-differs',
+                        'two noise-free exposures of the same image object by the same detector differ', desc)
+            out = out2
+    ctx.require('expose.input-untouched', np.array_equal(img, keep), 'C16/expose/input-mutated', 'expose modified the aerial image it was given', desc)
     if out is None:
         # an exception was recorded by the guard; with a LUT the documented table has 2^bits entries, so DN = 2^bits indexes past it
         if lut is not None and (v >= cap + 1).any():
@@ -471,45 +715,8 @@ def expose_case(ctx, bits, cls, rep):
                 t_['count'] += vio['count']
                 t_['witnesses'] = (t_['witnesses'] + vio['witnesses'])[:ctx.MAX_WITNESS_PER_KEY]
         return
-    o = np.asarray(out)
-    o = o.reshape((frames,) + tuple(img.shape)) if o.size == frames * img.size else None
-    if o is None:
-        return  # the contract reported the shape
-    ctx.observe('expose.noise-free-model')
-    wrapped = _wrapped(bits)
-    if lut is not None:
-        good = (o == lut[lo][None]) | (o == lut[hi][None])
-    else:
-        oi = o.astype(np.int64)
-        good = (oi >= lo[None]) & (oi <= hi[None])
-    if not good.all():
-        bad = ~good
-        vb = np.broadcast_to(v[None], o.shape)[bad]
-        gb = o[bad].astype(np.int64)
-        wrapped_dn = wrapped if lut is None else (int(lut[wrapped]) if wrapped < len(lut) else -1)
-        if (vb >= cap + 1 - 1e-9 * (cap + 1)).all() and ((gb == wrapped_dn).all() or (bits == 32 and lut is None)):
-            ctx.violation(ADC_KEY, ADC_WHAT, desc, got=gb[:3], want=cap)
-        else:
-            i = int(np.argmin(vb))
-            xb = np.broadcast_to(x[None], o.shape)[bad][i]
-            region = 'below-zero' if vb[i] < 0 else 'full-well-saturated' if xb > fwc else 'adc-saturated' if vb[i] >= cap else 'linear'
-            ctx.violation(f'C16/expose/noise-free-model/{region}', 'noise-free DN differs from floor(clip(min(s*t+dark+bias, fwc)/gain, 0, 2^bits-1)) '
-                          f'for a {region} pixel', desc, got=gb[i], want=[int(np.broadcast_to(lo[None], o.shape)[bad][i]),
-                                                                          int(np.broadcast_to(hi[None], o.shape)[bad][i])], real_dn=float(vb[i]))
-    if cls.startswith('ramp') or cls in ('line-1xN', 'line-Nx1', 'negative-bias'):
-        ctx.observe('expose.monotonic')
-        flat = o.reshape(frames, -1).astype(np.int64)
-        vv = v.ravel()
-        if lut is None and (np.diff(vv) >= 0).all():
-            drop = np.diff(flat, axis=1) < 0
-            if drop.any():
-                f_, i_ = np.nonzero(drop)
-                tgt = flat[f_, i_ + 1]
-                if (vv[i_ + 1] >= cap + 1 - 1e-9 * (cap + 1)).all() and ((tgt == wrapped).all() or bits == 32):
-                    ctx.violation(ADC_KEY, ADC_WHAT, desc, brighter_pixel_reads=int(tgt[0]), darker_pixel_reads=int(flat[f_[0], i_[0]]))
-                else:
-                    ctx.violation('C16/expose/non-monotonic', 'a brighter pixel reads darker in a noise-free exposure', desc,
-                                  signal=[float(img.ravel()[i_[0]]), float(img.ravel()[i_[0] + 1])], dn=[int(flat[f_[0], i_[0]]), int(tgt[0])])
+    with precision(prec):       # cfg_key reads the configuration of the failing call
+        judge_model(ctx, desc, out, img, frames, lo, hi, v, x, bits, fwc, lut, lambda b: resolve(b, img, default_fails), mono)
 
 
 def saturated_real_rng_case(ctx, bits, rep):
@@ -518,6 +725,7 @@ def saturated_real_rng_case(ctx, bits, rep):
     (integer Poisson counts, integer-typed bias, read_noise == 0, fractional full-well capacity, gain < 1)."""
     from prysm import detector
     rng = np.random.default_rng([ctx.seed, 1616, bits, rep])
+    imgdt, prec = EXPOSE_CFGS[rep % 4]
     cap = 2 ** bits - 1
     gain = float([0.125, 0.25, 0.5, 0.3, 1.0, 2.0, 7.3][int(rng.integers(7))])
     sat_e = cap * gain
@@ -537,36 +745,163 @@ def saturated_real_rng_case(ctx, bits, rep):
     img = np.full(shape, level)
     if rng.random() < 0.3:
         img = img.astype(np.int64)
+    elif imgdt == 'float32':
+        img = img.astype(np.float32)
     frames = int(rng.integers(1, 3))
-    want = int(np.floor(min(min(fwc, 1e300) / gain, cap) * (1 + 0)))
     want = int(np.floor(min(fwc / gain, float(cap))))
+    low = prec == 32 or img.dtype == np.float32
     desc = {'wl': 'expose-real-rng', 'bits': bits, 'variant': variant, 'gain': gain, 'bias': bias, 'bias_type': type(bias).__name__,
-            'fwc': fwc, 't': t, 'shape': list(shape), 'frames': frames, 'img_dtype': str(img.dtype),
-            'class': f'expose:saturated/real-rng/{variant}:bits={bits}'}
+            'fwc': fwc, 't': t, 'shape': list(shape), 'frames': frames, 'img_dtype': str(img.dtype), 'precision': prec,
+            'class': f'expose:saturated/real-rng/{variant}:bits={bits}:{img.dtype}/p{prec}'}
     ctx.case(desc)
     det = detector.Detector(dark_current=0, read_noise=0, bias=bias, fwc=fwc, conversion_gain=gain, bits=bits, exposure_time=t)
     out = None
-    with seeded_numpy(int(rng.integers(2 ** 31 - 1))), ctx.guard('C16/expose', desc):
-        out = det.expose(img, frames=frames)
-    if out is None:
-        return
-    ctx.observe('expose.saturated-real-rng')
-    o = np.asarray(out).astype(np.int64)
+    nseed = int(rng.integers(2 ** 31 - 1))
     # fwc/gain within a float ulp of an integer: accept both neighbours
     q = min(fwc / gain, float(cap))
     ok_vals = {want}
     if abs(q - round(q)) < 1e-9 * max(1.0, q):
         ok_vals |= {int(round(q)), int(round(q)) - 1}
-    if not np.isin(o, list(ok_vals)).all():
+
+    def default_fails():
+        img64 = np.asarray(img, dtype=float) if img.dtype.kind == 'f' else img
+        with precision(64), seeded_numpy(nseed):
+            o2 = np.asarray(det.expose(img64, frames=frames)).astype(np.int64)
+        return not bool(np.isin(o2, list(ok_vals)).all())
+
+    with precision(prec), deferred(ctx, img, lambda: default_fails()), seeded_numpy(nseed), ctx.guard('C16/expose', desc):
+        out = det.expose(img, frames=frames)
+    if out is None:
+        return
+    ctx.observe('expose.saturated-real-rng')
+    o = np.asarray(out).astype(np.int64)
+    if low:
+        good = (np.abs(o - want) <= LOW_DELTA * want + (1 if ok_vals != {want} else 0)).all()
+    else:
+        good = np.isin(o, list(ok_vals)).all()
+    if not good:
         region = 'full-well-saturated' if fwc < sat_e else 'adc-saturated'
-        ctx.violation(f'C16/expose/noise-free-model/{region}', 'a pixel driven far past saturation (read noise off) does not read '
+        base = ADC_KEY if region == 'adc-saturated' and (o == _wrapped(bits)).all() else f'C16/expose/noise-free-model/{region}'
+        with precision(prec):
+            key = resolve(base, img, default_fails)
+        ctx.violation(key, 'a pixel driven far past saturation (read noise off) does not read '
                       f'floor(min(fwc/gain, 2^bits-1)) for a {region} pixel', desc, got=o.ravel()[:3], want=want)
 
 
+HISTORY_STEPS = ['fresh', 'bits-down', 'gain', 'bits-up', 'fwc-below-adc', 'bias', 'exposure-time', 'prnu-set', 'prnu-cleared', 'dcnu-set',
+                 'dark-current', 'bits-32', 'precision-32', 'precision-64', 'bits-1', 'fwc-above-adc', 'frames', 'bits-25']
+
+
+def expose_history(ctx, hi):
+    """Class B: ONE Detector instance whose public attributes are changed between exposures (and the configuration
+    switched 64 -> 32 -> 64); the same image object throughout.  Every exposure is judged against the reference model of
+    the *current* attribute values, i.e. against what a freshly built detector must return."""
+    from prysm import detector
+    rng = np.random.default_rng([ctx.seed, 16161, hi])
+    shape = [(3, 4), (4, 4), (2, 6)][hi % 3]
+    n = shape[0] * shape[1]
+    p = {'bits': int([12, 16, 8, 14][hi % 4]), 'gain': float(10 ** rng.uniform(-0.5, 1)), 't': 1.0, 'dark': 0.0, 'bias': 0.0}
+    p['fwc'] = (2 ** p['bits'] - 1) * p['gain'] * 5 + 50
+    p['bias'] = 0.05 * (2 ** p['bits'] - 1) * p['gain']
+    det = detector.Detector(dark_current=p['dark'], read_noise=0.0, bias=p['bias'], fwc=p['fwc'], conversion_gain=p['gain'], bits=p['bits'],
+                            exposure_time=p['t'])
+    prnu = dcnu = None
+    prec = 32 if hi % 2 else 64          # odd histories warm the instance up in single precision, then switch to 64
+    frames = 1
+    if hi == 0:
+        steps = list(HISTORY_STEPS)
+    elif hi == 1:
+        steps = ['fresh', 'bits-25', 'bits-32', 'precision-64', 'frames', 'bits-25', 'bits-down', 'bits-32', 'fwc-below-adc', 'precision-32',
+                 'bits-up', 'precision-64', 'gain', 'bits-32']
+    else:
+        steps = ['fresh'] + [HISTORY_STEPS[1 + int(i)] for i in rng.integers(0, len(HISTORY_STEPS) - 1, ctx.pick(10, 40))]
+    base_img = None
+    first_fail = [None]
+    for si, step in enumerate(steps):
+        if step == 'bits-down':
+            p['bits'] = max(1, p['bits'] - int(rng.integers(2, 6)))
+        elif step == 'bits-up':
+            p['bits'] = min(32, p['bits'] + int(rng.integers(3, 9)))
+        elif step in ('bits-32', 'bits-1', 'bits-25'):
+            p['bits'] = int(step.split('-')[1])
+        elif step == 'gain':
+            p['gain'] = float(10 ** rng.uniform(-1, 1.5))
+        elif step == 'fwc-below-adc':
+            p['fwc'] = p['bias'] + max((2 ** p['bits'] - 1) * p['gain'] - p['bias'], p['gain']) * float(rng.uniform(0.3, 0.8))
+        elif step == 'fwc-above-adc':
+            p['fwc'] = (2 ** p['bits'] - 1) * p['gain'] * float(rng.uniform(3, 30)) + abs(p['bias']) + 10
+        elif step == 'bias':
+            p['bias'] = float(rng.uniform(0, 0.1) * (2 ** p['bits'] - 1) * p['gain'])
+        elif step == 'exposure-time':
+            p['t'] = float(10 ** rng.uniform(-1, 0.7))
+        elif step == 'prnu-set':
+            prnu, p['dark'] = rng.uniform(0.8, 1.2, shape), 0.0
+        elif step == 'prnu-cleared':
+            prnu = None
+        elif step == 'dcnu-set':
+            dcnu = rng.uniform(0.5, 1.5, shape)
+        elif step == 'dark-current':
+            p['dark'] = 0.0 if prnu is not None else float(rng.uniform(0, 0.2) * (2 ** p['bits'] - 1) * p['gain'] / p['t'])
+        elif step == 'precision-32':
+            prec = 32
+        elif step == 'precision-64':
+            prec = 64
+        elif step == 'frames':
+            frames = int(rng.integers(1, 4))
+        det.bits, det.conversion_gain, det.fwc, det.bias = p['bits'], p['gain'], p['fwc'], p['bias']
+        det.exposure_time, det.dark_current, det.prnu, det.dcnu = p['t'], p['dark'], prnu, dcnu
+        cap = 2 ** p['bits'] - 1
+        s_sat = max(min(p['fwc'], cap * p['gain']) - p['bias'], p['gain']) / p['t']
+        if base_img is None:
+            base_img = np.sort(rng.uniform(0, 1, n)).reshape(shape)
+            base_img.flat[0], base_img.flat[-1] = 0.0, 1.0
+        # the SAME image object for the whole history while the level still spans the range, else a rescaled one
+        img = base_img * (3.0 * s_sat)
+        desc = {'wl': 'expose-history', 'history': hi, 'step': si, 'changed': step, 'bits': p['bits'], 'gain': p['gain'], 'fwc': p['fwc'],
+                'bias': p['bias'], 't': p['t'], 'dark': p['dark'], 'prnu': prnu is not None, 'dcnu': dcnu is not None, 'precision': prec,
+                'frames': frames, 'steps': steps[:si + 1][-6:], 'class': f'expose-history:{step}'}
+        ctx.case(desc)
+        low = prec == 32
+        lo, hi_, v, x = ref.expose_ref(img, p['t'], p['dark'], p['bias'], p['fwc'], p['gain'], p['bits'], prnu=prnu, dcnu=dcnu,
+                                       delta=LOW_DELTA if low else 1e-12)
+        out = None
+        keep = img.copy()
+        with precision(prec), deferred(ctx, img, lambda: True), noise_free(), ctx.guard('C16/expose/history', desc):
+            out = det.expose(img, frames=frames)
+        if out is None:
+            continue
+        ctx.observe('expose.history')
+
+        def fresh_fails(pr, p=dict(p), prnu=prnu, dcnu=dcnu, img=img, frames=frames):
+            """A freshly built detector with the current attribute values: does it break the statement under precision pr?"""
+            d2 = detector.Detector(dark_current=p['dark'], read_noise=0.0, bias=p['bias'], fwc=p['fwc'], conversion_gain=p['gain'],
+                                   bits=p['bits'], exposure_time=p['t'], prnu=prnu, dcnu=dcnu)
+            lo2, hi2, _, _ = ref.expose_ref(img, p['t'], p['dark'], p['bias'], p['fwc'], p['gain'], p['bits'], prnu=prnu, dcnu=dcnu,
+                                            delta=LOW_DELTA if pr == 32 else 1e-12)
+            with quiet(), precision(pr), noise_free():
+                o2 = np.asarray(d2.expose(img, frames=frames)).reshape((frames,) + tuple(img.shape)).astype(np.int64)
+            return not bool(((o2 >= lo2[None]) & (o2 <= hi2[None])).all()) or o2.max() > 2 ** p['bits'] - 1
+
+        def keyf(b, step=step, prec=prec):
+            """plain key when a fresh detector fails too (not a history effect), else the key names the attribute that was changed"""
+            try:
+                if fresh_fails(64):
+                    return b
+                if prec == 32 and fresh_fails(32):
+                    return cfg_key(b, img)
+            except Exception:  # noqa
+                pass
+            first_fail[0] = first_fail[0] or step       # later steps of this history inherit the label of the first failing change
+            return b.replace('C16/expose/', f'C16/expose/history:{first_fail[0]}/', 1)
+        with precision(prec):
+            judge_model(ctx, desc, out, img, frames, lo, hi_, v, x, p['bits'], p['fwc'], None, keyf, prnu is None and dcnu is None)
+        ctx.require('expose.input-untouched', np.array_equal(img, keep), 'C16/expose/input-mutated', 'expose modified the aerial image it was given', desc)
+
+
 def expose_workload(ctx):
-    reps = ctx.pick(3, 60)
+    reps = ctx.pick(4, 800)
     kk = -1
-    for rep in range(ctx.pick(4, 80)):
+    for rep in range(ctx.pick(4, 1000)):
         for bits in range(1, 33):
             kk += 1
             if ctx.mine(kk):
@@ -581,10 +916,37 @@ def expose_workload(ctx):
                 if not ctx.mine(k):
                     continue
                 expose_case(ctx, bits, cls, rep)
-    ctx.note('expose', f'all bit depths 1..32 x {len(EXPOSE_CLASSES)} exposure classes x {reps} random parameter draws')
+    nh = ctx.pick(8, 2400)
+    for h in range(nh):
+        if ctx.mine(h):
+            expose_history(ctx, h)
+    ctx.note('expose', f'all bit depths 1..32 x {len(EXPOSE_CLASSES)} exposure classes x {reps} random parameter draws, rotating through '
+             f'{len(EXPOSE_CFGS)} configurations (float64/float32 image x config.precision 64/32), integer image containers and memory '
+             f'layouts; {nh} attribute-change histories on one Detector instance')
 
 
 # ------------------------------------------------------------------------------------------ binning workload
+BIN_DTYPES = ['float64', 'float32', 'int64', 'int32', 'int16', 'int8', 'uint8', 'uint16', 'uint32', 'bool']
+
+
+def fill(rng, shape, dt, bright=True):
+    """Integer-valued fill that uses the whole range of a narrow container (so block sums do not fit the container)."""
+    d = np.dtype(dt)
+    if d.kind == 'b':
+        return rng.random(shape) < 0.7
+    if d.kind == 'f':
+        return rng.integers(-50, 200, shape).astype(dt)
+    info = np.iinfo(d)
+    if d.itemsize == 8:
+        return rng.integers(-2 ** 40, 2 ** 40, shape).astype(dt)
+    lo_, hi_ = (int(info.min), int(info.max)) if bright else (0, min(int(info.max), 50))
+    x = rng.integers(lo_, hi_ + 1, shape).astype(dt)
+    if bright and x.size:
+        x.flat[0] = info.max           # a saturated sample
+        x.flat[-1] = info.max
+    return x
+
+
 def bin_workload(ctx):
     from prysm import detector
     cases = []
@@ -599,9 +961,10 @@ def bin_workload(ctx):
         idx = rs.permutation(len(cases))[:500]
         small = [c for c in cases if len(c[0]) <= 2]
         cases = small + [cases[i] for i in sorted(idx)]
-    for _ in range(ctx.pick(100, 3000)):
+    for _ in range(ctx.pick(100, 100000)):
         nd = int(rs.integers(1, 6))
-        cases.append((tuple(int(v) for v in rs.integers(1, 6, nd)), tuple(int(v) for v in rs.integers(1, 6 if nd < 4 else 4, nd))))
+        top = ctx.pick(6, 9) if nd < 4 else 4
+        cases.append((tuple(int(v) for v in rs.integers(1, ctx.pick(6, 12) if nd < 3 else 6, nd)), tuple(int(v) for v in rs.integers(1, top, nd))))
     modes = ['sum', 'avg', 'average', 'mean']
     for k, (o, f) in enumerate(cases):
         if not ctx.mine(k):
@@ -610,38 +973,137 @@ def bin_workload(ctx):
         shape = tuple(a * b for a, b in zip(o, f))
         scalar = len(set(f)) == 1 and k % 2 == 0
         farg = (f[0] if k % 4 == 0 else np.int64(f[0])) if scalar else (list(f) if k % 3 == 0 else f)
-        dt = ['float64', 'int64', 'float32'][k % 3] if k % 5 == 0 else 'float64'
-        x = rng.integers(-50, 200, shape).astype(dt)
-        if k % 7 == 0 and x.ndim >= 2:
-            x = np.ascontiguousarray(np.swapaxes(x, 0, 1)).swapaxes(0, 1)      # non-contiguous view, same shape
-        y = rng.integers(-20, 50, o).astype(float)
+        dt = BIN_DTYPES[(k // 2) % len(BIN_DTYPES)] if k % 2 else 'float64'
+        x = fill(rng, shape, dt)
+        layout = LAYOUTS[(k // 3) % 4] if k % 3 == 0 else 'C'
+        x = as_layout(x, layout)
+        ydt = ['float64', 'uint8', 'int16', 'bool', 'float32', 'uint16'][(k // 5) % 6] if k % 5 == 0 else 'float64'
+        y = fill(rng, o, ydt, bright=True) if ydt != 'float64' else rng.integers(-20, 50, o).astype(float)
+        yf = y.astype(float)
         fcls = 'scalar' if scalar else 'per-axis'
-        desc = {'wl': 'bin', 'out': list(o), 'factor': list(f), 'form': fcls, 'dtype': dt, 'k': k, 'class': f'bin:{len(o)}d:{fcls}'}
+        kind = np.dtype(dt).kind
+        ccls = {'f': 'float', 'i': 'integer', 'u': 'integer', 'b': 'boolean'}[kind]
+        csfx = '' if kind == 'f' else f'/{ccls}-input'
+        prec = 32 if k % 4 == 3 else 64
+        lowp = prec == 32 or 'float32' in (dt, ydt)
+        desc = {'wl': 'bin', 'out': list(o), 'factor': list(f), 'form': fcls, 'dtype': dt, 'tile_dtype': ydt, 'layout': layout, 'k': k,
+                'precision': prec, 'class': f'bin:{len(o)}d:{fcls}:{ccls}:p{prec}'}
         ctx.case(desc, nontrivial=x.size >= 2)
-        with ctx.guard('C16/bindown-tile', desc):
+
+        def key(base, sfx=csfx, x=x, y=y, f=f, farg=farg):
+            """container label only when the same arrays cast to double satisfy the block-sum / repeat models"""
+            if not sfx or base in ctx.violations:
+                return base
+            try:
+                with quiet():
+                    ok = (np.array_equal(detector.bindown(x.astype(float), farg, 'sum'), ref.bin_sum_ref(x.astype(float), f))
+                          and np.array_equal(detector.tile(y.astype(float), farg, 'avg'), ref.tile_ref(y.astype(float), f)))
+                if not ok:
+                    return base
+            except Exception:  # noqa
+                pass
+            return base + sfx
+        with precision(prec), ctx.guard('C16/bindown-tile', desc):
             want = ref.bin_sum_ref(x, f)
             nblk = int(np.prod(f))
+            x0 = np.array(x, copy=True)
             bs = detector.bindown(x, farg, 'sum')
-            ctx.equal('bindown.block-sum', np.asarray(bs, dtype=float), want, 'C16/bindown/sum/block-sum', 'bindown(sum) is not the sum over each block', desc)
+            if k % 4 == 1:
+                bs = detector.bindown(x, farg, 'sum')       # class A: same argument objects again, the later call is judged
+            if kind != 'f':
+                ctx.observe('bindown.integer-containers')
+            if prec == 32:      # single-precision configuration: the total need only be conserved to float32 round-off
+                ctx.close('bindown.block-sum', np.asarray(bs, dtype=float), want, key('C16/bindown/sum/block-sum'),
+                          'bindown(sum) is not the sum over each block', desc, rtol=1e-4, result_dtype=str(np.asarray(bs).dtype))
+            else:
+                ctx.equal('bindown.block-sum', np.asarray(bs, dtype=float), want, key('C16/bindown/sum/block-sum'),
+                          'bindown(sum) is not the sum over each block', desc, result_dtype=str(np.asarray(bs).dtype))
             for m in modes[1:][k % 3:k % 3 + 1]:
                 ba = detector.bindown(x, farg, m)
-                ctx.close('bindown.block-sum', ba, want / nblk, 'C16/bindown/avg/block-mean', 'bindown(avg) is not the mean over each block', desc,
-                          rtol=1e-6 if dt == 'float32' else 1e-12, atol=1e-9)
+                ctx.close('bindown.block-sum', np.asarray(ba, dtype=float), want / nblk, key('C16/bindown/avg/block-mean'),
+                          'bindown(avg) is not the mean over each block', desc, rtol=1e-4 if prec == 32 else 1e-6 if dt == 'float32' else 1e-12,
+                          atol=1e-9)
+            ctx.require('bindown.input-untouched', np.array_equal(x, x0), 'C16/bindown/input-mutated', 'bindown modified the array it was given', desc)
+            y0 = np.array(y, copy=True)
+            ysfx = '' if y.dtype.kind == 'f' else '/integer-input' if y.dtype.kind in 'iu' else '/boolean-input'
             ta = detector.tile(y, farg, 'avg' if k % 2 else 'mean')
-            ctx.equal('tile.reference', ta, ref.tile_ref(y, f), 'C16/tile/avg/not-repeat', 'tile(avg) is not each sample repeated factor times', desc)
+            ctx.equal('tile.reference', np.asarray(ta, dtype=float), ref.tile_ref(yf, f), key('C16/tile/avg/not-repeat', ysfx),
+                      'tile(avg) is not each sample repeated factor times', desc)
             ts = detector.tile(y, farg, 'sum')
-            ctx.close('tile.reference', ts, ref.tile_ref(y, f) / nblk, 'C16/tile/sum/not-repeat-over-count', 'tile(sum) is not repeat/prod(factor)', desc,
-                      rtol=1e-12)
-            # the two adjoint pairs
+            ctx.close('tile.reference', np.asarray(ts, dtype=float), ref.tile_ref(yf, f) / nblk, key('C16/tile/sum/not-repeat-over-count', ysfx),
+                      'tile(sum) is not repeat/prod(factor)', desc, rtol=1e-4 if prec == 32 else 1e-6 if ydt == 'float32' else 1e-12)
+            ctx.require('tile.input-untouched', np.array_equal(y, y0), 'C16/tile/input-mutated', 'tile modified the array it was given', desc)
+            # the two adjoint pairs (in double: x as handed in for the sum pair when it is an integer container)
             xf = x.astype(float)
-            l1, r1 = float((detector.bindown(xf, farg, 'avg') * y).sum()), float((xf * ts).sum())
-            l2, r2 = float((detector.bindown(xf, farg, 'sum') * y).sum()), float((xf * ta).sum())
-            sc = float(np.abs(xf).sum() * np.abs(y).max()) or 1.0
-            ctx.require('adjoint.pairs', abs(l1 - r1) <= 1e-10 * sc, 'C16/adjoint/bindown-avg~tile-sum', '<bindown_avg(x), y> != <x, tile_sum(y)>', desc, lhs=l1, rhs=r1)
-            ctx.require('adjoint.pairs', abs(l2 - r2) <= 1e-10 * sc, 'C16/adjoint/bindown-sum~tile-avg', '<bindown_sum(x), y> != <x, tile_avg(y)>', desc, lhs=l2, rhs=r2)
+            ta_f, ts_f = np.asarray(ta, dtype=float), np.asarray(ts, dtype=float)
+            l1, r1 = float((detector.bindown(xf, farg, 'avg') * yf).sum()), float((xf * ts_f).sum())
+            l2, r2 = float((np.asarray(detector.bindown(x if kind != 'f' else xf, farg, 'sum'), dtype=float) * yf).sum()), float((xf * ta_f).sum())
+            sc = float(np.abs(xf).sum() * np.abs(yf).max()) or 1.0
+            at = 1e-4 if prec == 32 else 1e-5 if lowp else 1e-10
+            ctx.require('adjoint.pairs', abs(l1 - r1) <= at * sc, 'C16/adjoint/bindown-avg~tile-sum', '<bindown_avg(x), y> != <x, tile_sum(y)>', desc, lhs=l1, rhs=r1)
+            ctx.require('adjoint.pairs', abs(l2 - r2) <= at * sc, key('C16/adjoint/bindown-sum~tile-avg'), '<bindown_sum(x), y> != <x, tile_avg(y)>', desc, lhs=l2, rhs=r2)
             # tiling then binning returns the array
-            ctx.close('tile.roundtrip', detector.bindown(ta, farg, 'avg'), y, 'C16/tile/bindown(tile)!=identity/avg', 'bindown_avg(tile_avg(y)) != y', desc, rtol=1e-12)
-            ctx.close('tile.roundtrip', detector.bindown(ts, farg, 'sum'), y, 'C16/tile/bindown(tile)!=identity/sum', 'bindown_sum(tile_sum(y)) != y', desc, rtol=1e-12)
+            ctx.close('tile.roundtrip', np.asarray(detector.bindown(ta, farg, 'avg'), dtype=float), yf, key('C16/tile/bindown(tile)!=identity/avg', ysfx),
+                      'bindown_avg(tile_avg(y)) != y', desc, rtol=1e-4 if prec == 32 else 1e-6 if ydt == 'float32' else 1e-12)
+            ctx.close('tile.roundtrip', np.asarray(detector.bindown(ts, farg, 'sum'), dtype=float), yf, 'C16/tile/bindown(tile)!=identity/sum',
+                      'bindown_sum(tile_sum(y)) != y', desc, rtol=1e-4 if prec == 32 else 1e-6 if ydt == 'float32' else 1e-12)
+            if y.dtype.kind != 'f' and nblk > 1:
+                # the other order on a narrow container: bin the repeated frame by summing (block sums leave the container)
+                ctx.observe('bindown.integer-containers')
+                ctx.equal('bindown.block-sum', np.asarray(detector.bindown(ta, farg, 'sum'), dtype=float), yf * nblk,
+                          key('C16/bindown/sum/block-sum', ysfx), 'bindown_sum(tile_avg(y)) != prod(factor) * y', desc, tile_dtype=ydt)
+
+
+def expose_bin_workload(ctx):
+    """The expose -> bindown / tile interaction: frames as expose returns them (uint8 / uint16 / uint32 containers, single
+    frames and stacks) are binned and tiled; totals and block sums are taken in double by the reference."""
+    from prysm import detector
+    combos = []
+    for bits in (8, 10, 12, 14, 16, 24, 32, 1, 5):
+        for level in ('saturating', 'mid'):
+            for factor in (2, 4, 8, (2, 4), 'stack'):
+                combos.append((bits, level, factor))
+    reps = ctx.pick(1, 160)
+    k = -1
+    for rep in range(reps):
+        for bits, level, factor in combos:
+            k += 1
+            if not ctx.mine(k):
+                continue
+            rng = np.random.default_rng([ctx.seed, 16016, k])
+            cap = 2 ** bits - 1
+            gain = float(10 ** rng.uniform(-0.5, 1))
+            shape = [(16, 24), (32, 32), (8, 40)][int(rng.integers(3))] if rep else (16, 24)
+            frames = int(rng.integers(2, 4)) if factor == 'stack' else 1
+            f = (1, 8, 8) if factor == 'stack' else ((factor, factor) if isinstance(factor, int) else factor)
+            lvl = {'saturating': 3.0, 'mid': 0.6}[level]
+            img = rng.uniform(0.7, 1.3, shape) * lvl * cap * gain
+            prec = 32 if rep % 2 else 64
+            det = detector.Detector(dark_current=0.0, read_noise=float(2 * gain), bias=float(0.01 * cap * gain), fwc=cap * gain * 10 + 100,
+                                    conversion_gain=gain, bits=bits, exposure_time=1.0)
+            desc = {'wl': 'expose->bin', 'bits': bits, 'level': level, 'factor': list(f), 'frames': frames, 'shape': list(shape), 'precision': prec,
+                    'k': k, 'class': f'expose->bin:bits={bits}:{level}:{"stack" if factor == "stack" else "frame"}'}
+            ctx.case(desc)
+            with precision(prec), seeded_numpy(int(rng.integers(2 ** 31 - 1))), ctx.guard('C16/expose->bindown', desc):
+                fr = det.expose(img, frames=frames)
+                fr0 = np.array(fr, copy=True)
+                want = ref.bin_sum_ref(fr, f)
+                nblk = int(np.prod(f))
+                bs = detector.bindown(fr, f if k % 2 else list(f), 'sum')
+                ctx.observe('expose->bindown')
+                ctx.equal('expose->bindown', np.asarray(bs, dtype=float), want,
+                          'C16/bindown/sum/block-sum' if 'C16/bindown/sum/block-sum' in ctx.violations else 'C16/bindown/sum/block-sum/integer-input',
+                          'bindown(sum) of an exposed frame is not the sum of the DN over each block', desc, frame_dtype=str(fr.dtype),
+                          result_dtype=str(np.asarray(bs).dtype))
+                ba = detector.bindown(fr, f, 'avg')
+                ctx.close('expose->bindown', np.asarray(ba, dtype=float), want / nblk,
+                          'C16/bindown/avg/block-mean' if 'C16/bindown/avg/block-mean' in ctx.violations else 'C16/bindown/avg/block-mean/integer-input',
+                          'bindown(avg) of an exposed frame is not the mean DN over each block', desc, rtol=1e-12, atol=1e-9)
+                tl = detector.tile(fr, f, 'avg')
+                ctx.equal('expose->bindown', np.asarray(tl, dtype=float), ref.tile_ref(fr.astype(float), f),
+                          'C16/tile/avg/not-repeat' if 'C16/tile/avg/not-repeat' in ctx.violations else 'C16/tile/avg/not-repeat/integer-input',
+                          'tile(avg) of an exposed frame is not each DN repeated', desc)
+                ctx.require('bindown.input-untouched', np.array_equal(fr, fr0), 'C16/bindown/input-mutated', 'bindown / tile modified the frame', desc)
 
 
 # ------------------------------------------------------------------------------------------ Bayer workload
@@ -649,8 +1111,9 @@ def bayer_workload(ctx):
     from prysm import bayer
     shapes = [(2, 2), (2, 4), (4, 2), (4, 4), (4, 6), (6, 4), (6, 6), (8, 8), (6, 10), (12, 8), (16, 16), (32, 32), (10, 32)]
     rs = np.random.default_rng([ctx.seed, 16160])
-    for _ in range(ctx.pick(60, 700)):
-        shapes.append((2 * int(rs.integers(1, 17)), 2 * int(rs.integers(1, 17))))
+    for i in range(ctx.pick(60, 16000)):
+        top = 17 if i < 700 else 65
+        shapes.append((2 * int(rs.integers(1, top)), 2 * int(rs.integers(1, top))))
     k = -1
     for shape in shapes:
         for cfa in ('rggb', 'bggr'):
@@ -658,32 +1121,61 @@ def bayer_workload(ctx):
             if not ctx.mine(k):
                 continue
             rng = np.random.default_rng([ctx.seed, 162, k])
-            fill = ['uniform', 'int', 'marker'][k % 3]
-            if fill == 'uniform':
+            fill_ = ['uniform', 'int', 'marker'][k % 3]
+            if fill_ == 'uniform':
                 m = rng.uniform(1, 1000, shape)
-            elif fill == 'int':
+            elif fill_ == 'int':
                 m = rng.integers(1, 4096, shape).astype(float)
             else:
                 m = np.arange(1, shape[0] * shape[1] + 1, dtype=float).reshape(shape)
-            desc = {'wl': 'bayer', 'shape': list(shape), 'cfa': cfa, 'fill': fill, 'k': k,
-                    'class': f'bayer:{cfa}:{"sq" if shape[0] == shape[1] else "nonsq"}'}
+            # container / layout / configuration classes (float64 C-order under precision 64 is the default)
+            dt = ['float64', 'float32', 'uint16', 'float64', 'uint8', 'float64', 'int32'][(k // 2) % 7]
+            if np.dtype(dt).kind in 'iu':
+                m = np.clip(np.rint(m), 0, np.iinfo(dt).max).astype(dt) if fill_ != 'marker' else (m % (int(np.iinfo(dt).max) + 1)).astype(dt)
+                m.flat[0] = np.iinfo(dt).max if dt != 'int32' else 2 ** 20
+            else:
+                m = m.astype(dt)
+            layout = LAYOUTS[(k // 3) % 4] if k % 3 == 1 else 'C'
+            m = as_layout(m, layout)
+            prec = 32 if (k // 4) % 3 == 2 else 64
+            isf = m.dtype.kind == 'f'
+            desc = {'wl': 'bayer', 'shape': list(shape), 'cfa': cfa, 'fill': fill_, 'k': k, 'dtype': dt, 'layout': layout, 'precision': prec,
+                    'class': f'bayer:{cfa}:{"sq" if shape[0] == shape[1] else "nonsq"}:{dt}'}
             ctx.case(desc)
-            with ctx.guard(f'C16/bayer/{cfa}', desc):
+            with precision(prec), ctx.guard(f'C16/bayer/{cfa}', desc):
                 m0 = m.copy()
                 planes = bayer.decomposite_bayer(m, cfa)
                 back = bayer.recomposite_bayer(*planes, cfa=cfa)
                 ctx.equal('bayer.roundtrip', back, m0, f'C16/bayer/roundtrip/{cfa}', 'recomposite_bayer(decomposite_bayer(m)) != m', desc)
-                out = np.zeros_like(m)
+                out = np.zeros_like(m0)
                 bayer.recomposite_bayer(*planes, cfa=cfa, output=out)
                 ctx.equal('bayer.roundtrip', out, m0, f'C16/bayer/roundtrip/{cfa}/output-arg', 'recomposite into a given output != m', desc)
-                dense = [rng.uniform(1, 9, shape) for _ in range(4)]
+                if k % 4 == 1:
+                    # class A: the same plane objects once more (and the planes may be views of the mosaic)
+                    back2 = bayer.recomposite_bayer(*planes, cfa=cfa)
+                    ctx.equal('bayer.roundtrip', back2, m0, f'C16/bayer/roundtrip/{cfa}', 'recomposite_bayer(decomposite_bayer(m)) != m', desc)
+                if k % 2 == 0:
+                    # class A: results handed out earlier are the caller's; a later call on OTHER data must not change them
+                    other = np.ascontiguousarray(m0[::-1, ::-1]) + (1 if not isf else 0.5)
+                    p2 = bayer.decomposite_bayer(other, cfa)
+                    p2c = [np.array(q, copy=True) for q in planes]
+                    bayer.recomposite_bayer(*p2, cfa=cfa)
+                    bayer.demosaic_deinterlace(other, cfa)
+                    ok = np.array_equal(back, m0) and all(np.array_equal(a_, b_) for a_, b_ in zip(planes, p2c))
+                    ctx.require('bayer.earlier-result-untouched', ok, f'C16/bayer/{cfa}/earlier-result-overwritten',
+                                'a later Bayer call on other data changed an array an earlier call had returned', desc)
+                dense = [as_layout(rng.uniform(1, 9, shape).astype(dt if isf else 'float64'), layout) for _ in range(4)]
                 bayer.composite_bayer(*dense, cfa=cfa)
                 rgb = bayer.demosaic_malvar(m, cfa)
-                flat = bayer.demosaic_malvar(np.full(shape, 7.0), cfa)
-                ctx.close('bayer.malvar-flat-field', flat, np.full(shape + (3,), 7.0), f'C16/bayer/malvar/{cfa}/flat-field-not-preserved',
-                          'demosaic_malvar of a constant mosaic is not constant (kernels not normalised)', desc, rtol=1e-12)
+                if isf:
+                    flat = bayer.demosaic_malvar(np.full(shape, 7.0, dtype=dt), cfa)
+                    ctx.close('bayer.malvar-flat-field', flat, np.full(shape + (3,), 7.0), f'C16/bayer/malvar/{cfa}/flat-field-not-preserved',
+                              'demosaic_malvar of a constant mosaic is not constant (kernels not normalised)', desc,
+                              rtol=1e-5 if dt == 'float32' else 1e-12)
                 bayer.demosaic_deinterlace(m, cfa)
                 ctx.require('bayer.input-untouched', np.array_equal(m, m0), f'C16/bayer/{cfa}/input-mutated', 'a Bayer routine modified the mosaic it was given', desc)
+                if dt != 'float64':
+                    continue          # white balance is documented for float mosaics; its contract tolerances are double precision
                 # white balance: plain and safe, scalar and per-channel saturation
                 g = [float(v) for v in rng.uniform(0.3, 3.0, 4)]
                 mm = m.copy()
@@ -701,14 +1193,18 @@ def run(ctx):
     global CTX
     CTX = ctx
     from prysm import mathops
+    from prysm.conf import config
     real = mathops.np._srcmodule
+    old = 32 if config.precision is np.float32 else 64
     install()
     try:
         expose_workload(ctx)
         bin_workload(ctx)
+        expose_bin_workload(ctx)
         bayer_workload(ctx)
     finally:
         mathops.np._srcmodule = real
+        config.precision = old
         detach_all()
 
 
